@@ -1,6 +1,7 @@
 import I18n.Model.Plural
 import I18n.Lemmas.EvalSpec
 import I18n.Lemmas.ParseSound
+import I18n.Lemmas.ParseString
 import I18n.Generated.PluralGrammar
 import I18n.Spec.PluralY
 /-!
@@ -88,11 +89,80 @@ theorem grammar_pin :
     Generated.PluralGrammar.opTable = Spec.PluralY.opTable ∧
     Generated.PluralGrammar.intMaxStrDigits = PluralParse.maxStrDigits := by decide
 
-/-- **Structure.**  Whatever the parser model accepts is derived by the stratified C grammar
+/-- **Tokens.**  The lexer model (rply's loop: rules in declaration order, first match wins, greedy regexes)
+    accepts a string with token list `ts` iff `ts` is its tokenisation by plural.y's token language
+    (`Spec.Tokens`: the lexemes `? : || && == != < <= > >= + - * / % ! ( ) n` and decimal numerals, each the
+    longest lexeme at its position, separated by blanks and tabs only). -/
+theorem lex_complete_sound (s : List Char) (ts : List PluralParse.Tok) :
+    PluralParse.lex s = .ok ts ↔ Spec.Tokens s ts := PluralParse.lex_iff_tokens s ts
+
+/-- a string has at most one tokenisation -/
+theorem tokens_unique {s : List Char} {ts ts' : List PluralParse.Tok} (h : Spec.Tokens s ts) (h' : Spec.Tokens s ts') :
+    ts = ts' := PluralParse.tokens_functional h h'
+
+/-- no tokenisation ⇒ the lexer's syntax error, never another outcome -/
+theorem lex_rejects_iff (s : List Char) : PluralParse.lex s = .syntaxError ↔ ¬ ∃ ts, Spec.Tokens s ts :=
+  PluralParse.lex_syntaxError_iff s
+
+/-- **Structure, soundness.**  Whatever the parser model accepts is derived by the stratified C grammar
     (`Spec.D`: `?:` right-associative and lowest, then `||`, `&&`, `== !=`, `< <= > >=`, `+ -`, `* / %`
     left-associative, then `!`, then primaries) with exactly the returned AST. -/
 theorem parse_sound (ts : List PluralParse.Tok) (e : Expr) (h : PluralParse.parseToks ts = some e) :
     Spec.D 0 ts e := PluralParse.parseToks_sound h
+
+/-- **Structure, completeness.**  Every derivation of the stratified C grammar is found, with the recursion
+    budget (`9 * length + 9`) the model actually uses. -/
+theorem parse_complete (ts : List PluralParse.Tok) (e : Expr) (d : Spec.D 0 ts e) :
+    PluralParse.parseToks ts = some e := PluralParse.parseToks_complete d
+
+/-- **Structured with C precedence and associativity**: the parser returns `e` iff the C grammar derives `e` … -/
+theorem parse_iff_derives (ts : List PluralParse.Tok) (e : Expr) :
+    PluralParse.parseToks ts = some e ↔ Spec.D 0 ts e := PluralParse.parseToks_iff ts e
+
+/-- … and the C grammar is unambiguous: one AST per token list (at every level). -/
+theorem derives_functional {k : Nat} {ts : List PluralParse.Tok} {e e' : Expr} (d : Spec.D k ts e) (d' : Spec.D k ts e') :
+    e = e' := PluralParse.D_functional d d'
+
+/-- **Accepted language = L(plural.y)**: a token list is accepted iff plural.y's (ambiguous, precedence-free)
+    expression grammar generates it. -/
+theorem accept_iff_plural_y (ts : List PluralParse.Tok) :
+    (∃ e, PluralParse.parseToks ts = some e) ↔ Spec.Amb ts := PluralParse.accept_iff_amb ts
+
+/-- **End to end, on strings.**  `parse_plural_expression(s)` returns the tree `e` iff `s` tokenises (plural.y's
+    token language) into a list from which the C grammar derives `e`; -/
+theorem parse_string_iff (s : List Char) (e : Expr) :
+    PluralParse.parse s = .ok e ↔ ∃ ts, Spec.Tokens s ts ∧ Spec.D 0 ts e := PluralParse.parse_ok_iff s e
+
+/-- it accepts `s` iff `s` is a sentence of plural.y; -/
+theorem accept_string_iff (s : List Char) :
+    (∃ e, PluralParse.parse s = .ok e) ↔ ∃ ts, Spec.Tokens s ts ∧ Spec.Amb ts := PluralParse.parse_accepts_iff s
+
+/-- and every other string gets the syntax error (no third outcome). -/
+theorem reject_string_iff (s : List Char) :
+    PluralParse.parse s = .syntaxError ↔ ¬ ∃ ts, Spec.Tokens s ts ∧ Spec.Amb ts := PluralParse.parse_syntaxError_iff s
+
+/-! Non-vacuity: registry expressions and their trees (Polish, Russian, Slovenian; Arabic from the gettext manual). -/
+example : PluralParse.parse "n==1 ? 0 : n%10>=2 && n%10<=4 && (n%100<10 || n%100>=20) ? 1 : 2".toList = .ok
+    (.ifexp (.compare .name .eq (.num 1)) (.num 0) (.ifexp (.boolop .and (.boolop .and (.compare (.binop .name .mod (.num 10)) .gte (.num 2)) (.compare (.binop .name .mod (.num 10)) .lte (.num 4))) (.boolop .or (.compare (.binop .name .mod (.num 100)) .lt (.num 10)) (.compare (.binop .name .mod (.num 100)) .gte (.num 20)))) (.num 1) (.num 2))) := by rfl
+example : PluralParse.parse "n%10==1 && n%100!=11 ? 0 : n%10>=2 && n%10<=4 && (n%100<10 || n%100>=20) ? 1 : 2".toList = .ok
+    (.ifexp (.boolop .and (.compare (.binop .name .mod (.num 10)) .eq (.num 1)) (.compare (.binop .name .mod (.num 100)) .noteq (.num 11))) (.num 0) (.ifexp (.boolop .and (.boolop .and (.compare (.binop .name .mod (.num 10)) .gte (.num 2)) (.compare (.binop .name .mod (.num 10)) .lte (.num 4))) (.boolop .or (.compare (.binop .name .mod (.num 100)) .lt (.num 10)) (.compare (.binop .name .mod (.num 100)) .gte (.num 20)))) (.num 1) (.num 2))) := by rfl
+example : PluralParse.parse "n%100==1 ? 0 : n%100==2 ? 1 : n%100==3 || n%100==4 ? 2 : 3".toList = .ok
+    (.ifexp (.compare (.binop .name .mod (.num 100)) .eq (.num 1)) (.num 0) (.ifexp (.compare (.binop .name .mod (.num 100)) .eq (.num 2)) (.num 1) (.ifexp (.boolop .or (.compare (.binop .name .mod (.num 100)) .eq (.num 3)) (.compare (.binop .name .mod (.num 100)) .eq (.num 4))) (.num 2) (.num 3)))) := by rfl
+example : PluralParse.parse "n==0 ? 0 : n==1 ? 1 : n==2 ? 2 : n%100>=3 && n%100<=10 ? 3 : n%100>=11 ? 4 : 5".toList = .ok
+    (.ifexp (.compare .name .eq (.num 0)) (.num 0) (.ifexp (.compare .name .eq (.num 1)) (.num 1) (.ifexp (.compare .name .eq (.num 2)) (.num 2) (.ifexp (.boolop .and (.compare (.binop .name .mod (.num 100)) .gte (.num 3)) (.compare (.binop .name .mod (.num 100)) .lte (.num 10))) (.num 3) (.ifexp (.compare (.binop .name .mod (.num 100)) .gte (.num 11)) (.num 4) (.num 5)))))) := by rfl
+/-- the specification side is inhabited too: a derivation written out by hand, and the lexer corner cases -/
+example : Spec.D 0 [.var, .bin .sub, .int 1, .bin .sub, .int 2] (.binop (.binop .name .sub (.num 1)) .sub (.num 2)) :=
+  (parse_iff_derives _ _).1 (by rfl)
+example : Spec.Tokens "n !=\t12".toList [.var, .cmp .noteq, .int 12] := (lex_complete_sound _ _).1 (by rfl)
+example : ¬ ∃ ts, Spec.Tokens "n ! = 1".toList ts := (lex_rejects_iff _).1 (by rfl)
+example : ¬ ∃ ts, Spec.Tokens "n & n".toList ts := (lex_rejects_iff _).1 (by rfl)
+example : ¬ ∃ ts, Spec.Tokens "n = 1".toList ts := (lex_rejects_iff _).1 (by rfl)
+example : ¬ ∃ ts, Spec.Tokens "n\n".toList ts := (lex_rejects_iff _).1 (by rfl)
+example : ¬ Spec.Amb [.var, .var] := fun h => by
+  obtain ⟨e, he⟩ := (accept_iff_plural_y _).2 h
+  have : PluralParse.parseToks [.var, .var] = none := by rfl
+  rw [this] at he
+  cases he
 
 /-- `a - b - c` is `(a - b) - c`, `!n == 1` is `(!n) == 1`, `a ? b : c ? d : e` nests to the right -/
 example : PluralParse.parse "n-1-2".toList = .ok (.binop (.binop .name .sub (.num 1)) .sub (.num 2)) := by rfl
